@@ -45,4 +45,13 @@ func init() {
 			return g > 0 || o.Probes["auto-overflow"] > 0 || o.Probes["auto-expiration"] > 0
 		},
 	})
+	// C18 (cache level): admission decisions of the real eviction run, random admission pinned off.
+	Props["C18"].Engines = append(Props["C18"].Engines, &seqEngine{
+		admission: true,
+		profile: Profile{Prop: "C18", Executor: []string{"sync"}, NoExp: true, NoRef: true, BoundOnly: true, Keys: [2]int{6, 14}, MinOps: 40, MaxOps: 300,
+			OpW: map[string]int{"set": 30, "get": 45, "compute": 6, "setifabsent": 6, "computeifabsent": 4, "invalidate": 3, "getentry": 4,
+				"getquiet": 0, "computeifpresent": 2, "invalidateall": 0, "setexpires": 0, "setrefreshable": 0, "load": 3, "bulkget": 0, "refresh": 0, "bulkrefresh": 0,
+				"all": 0, "keys": 0, "values": 0, "hottest": 1, "coldest": 1, "setmax": 0, "getmax": 0, "wsize": 0, "esize": 0, "cleanup": 1, "stats": 0, "advance": 0, "runexec": 0}},
+		nontrivial: func(o *SeqOutcome) bool { return o.Probes["admission-decisions-checked"] > 0 },
+	})
 }
